@@ -251,6 +251,50 @@ theorem negotiate1_perm (ours ours' theirs theirs' : Table D) (ho : ours.Perm ou
     | cons a rest ih => obtain ⟨av, ad⟩ := a; simp only [scan1, find_key_perm ht hnt av, ih]
   exact this l
 
+theorem scan1_no_panic {theirs all l : Table D} : scan1 theirs all l ≠ .panic := by
+  induction l with
+  | nil => simp [scan1]
+  | cons a rest ih =>
+    obtain ⟨av, ad⟩ := a
+    simp only [scan1]
+    cases theirs.find? (fun c => c.1 = av) with
+    | some c => simp only []; split <;> simp
+    | none => exact ih
+
+/-- **completeness (stack 1)**: with unique keys, the answer is decided by the highest common version
+    alone — equal data there: accept; different data (any field, compared in full): refuse -/
+theorem negotiate1_complete (ours theirs : Table D) (hno : (keys ours).Nodup) (hnt : (keys theirs).Nodup)
+    (v : Nat) (d d' : D) (ho : (v, d) ∈ ours) (ht : (v, d') ∈ theirs)
+    (hmax : ∀ w, w ∈ keys ours → w ∈ keys theirs → w ≤ v) :
+    negotiate1 ours theirs = if d = d' then .accept v d else .refused v := by
+  have hvo : v ∈ keys ours := List.mem_map_of_mem (f := (·.1)) ho
+  have hvt : v ∈ keys theirs := List.mem_map_of_mem (f := (·.1)) ht
+  cases h : negotiate1 ours theirs with
+  | accept v' d'' =>
+    obtain ⟨h1, h2, h3⟩ := accept_sound1 ours theirs v' d'' h
+    have hv : v' = v := by
+      have a := h3 v hvo hvt
+      have b := hmax v' (List.mem_map_of_mem (f := (·.1)) h1) (List.mem_map_of_mem (f := (·.1)) h2)
+      omega
+    subst hv
+    have e1 : (v', d'') = (v', d) := unique_of_nodup_keys hno h1 ho rfl
+    have e2 : (v', d'') = (v', d') := unique_of_nodup_keys hnt h2 ht rfl
+    simp only [Prod.mk.injEq, true_and] at e1 e2
+    subst e1; subst e2; simp
+  | refused v' =>
+    obtain ⟨⟨d1, d2, h1, h2, hne⟩, h3⟩ := refused_sound1 ours theirs v' h
+    have hv : v' = v := by
+      have a := h3 v hvo hvt
+      have b := hmax v' (List.mem_map_of_mem (f := (·.1)) h1) (List.mem_map_of_mem (f := (·.1)) h2)
+      omega
+    subst hv
+    have e1 : (v', d1) = (v', d) := unique_of_nodup_keys hno h1 ho rfl
+    have e2 : (v', d2) = (v', d') := unique_of_nodup_keys hnt h2 ht rfl
+    simp only [Prod.mk.injEq, true_and] at e1 e2
+    subst e1; subst e2; simp [hne]
+  | versionMismatch vs => exact absurd hvt (mismatch_only_if_disjoint1 ours theirs vs h v hvo)
+  | panic => exact absurd h scan1_no_panic
+
 /-! ## network 2 -/
 
 omit [DecidableEq D] in
@@ -415,6 +459,34 @@ theorem mismatch_only_if_disjoint2 (magic : D → Nat) (ours proposed : Table D)
     obtain ⟨p, hp, rfl⟩ := List.mem_map.mp hwp
     have : p ∈ common ours proposed := mem_common.mpr ⟨hp, hwo⟩
     simp [hnil] at this
+
+omit [DecidableEq D] in
+/-- **completeness (stack 2)**: with unique keys, the answer is decided by the highest common version
+    alone — equal magics (as full numbers, no truncation): accept with our data; different: refuse -/
+theorem negotiate2_complete (magic : D → Nat) (ours proposed : Table D) (hno : (keys ours).Nodup)
+    (hnp : (keys proposed).Nodup) (v : Nat) (d pd : D) (ho : (v, d) ∈ ours) (hp : (v, pd) ∈ proposed)
+    (hmax : ∀ w, w ∈ keys ours → w ∈ keys proposed → w ≤ v) :
+    negotiate2 magic ours proposed = if magic pd ≠ magic d then .refused v else .accept v d := by
+  have hvo : v ∈ keys ours := List.mem_map_of_mem (f := (·.1)) ho
+  unfold negotiate2
+  cases hm : maxByKey (common ours proposed) with
+  | none =>
+    have := maxByKey_none hm
+    have hc : (v, pd) ∈ common ours proposed := mem_common.mpr ⟨hp, hvo⟩
+    simp [this] at hc
+  | some x =>
+    obtain ⟨hx, hxmax⟩ := maxByKey_some hm
+    have hxc := mem_common.mp hx
+    have h1 := hxmax (v, pd) (mem_common.mpr ⟨hp, hvo⟩)
+    have h2 := hmax x.1 hxc.2 (List.mem_map_of_mem (f := (·.1)) hxc.1)
+    have hxe : x = (v, pd) := unique_of_nodup_keys hnp hxc.1 hp (by simp at h1; omega)
+    subst hxe
+    have hl : lookup ours v = some d := by
+      unfold lookup
+      have := find_key_of_mem hno ho
+      simp at this
+      simp [this]
+    simp only [hl]
 
 omit [DecidableEq D] in
 /-- **disjoint_refuses (stack 2)**: disjoint version sets are refused with a version mismatch listing our versions. -/
